@@ -634,6 +634,10 @@ func (txn *Txn) commitAndSend() (func() error, error) {
 	for _, e := range txn.pendingWrites {
 		processEntry(e)
 	}
+	if verifhook.Enabled("txn.sort-entries") {
+		// Simulation only: pin the (unspecified) map order of a batch so that runs replay.
+		sort.Slice(entries, func(i, j int) bool { return bytes.Compare(entries[i].Key, entries[j].Key) < 0 })
+	}
 	txn.clearPendingWrites() // Clear the map to prevent double-free in Discard.
 
 	req, err := txn.db.sendToWriteCh(entries, true)
